@@ -1030,7 +1030,8 @@ def _marathon_long(out, log, m, det, prop="C02"):
         a = b
     if block >= total:
         out.count("probe:marathon_one_call_beyond_2e25_samples")
-    out.count("probe:marathon_beyond_%s_samples" % ("2e32" if total >= (1 << 32) else "2e31"))
+    if total >= (1 << 31):
+        out.count("probe:marathon_beyond_%s_samples" % ("2e32" if total >= (1 << 32) else "2e31"))
     try:
         if det == "fkm":
             o = {"from": np.asarray(d.recorder.values_from, dtype=np.float64), "to": np.asarray(d.recorder.values_to, dtype=np.float64),
@@ -1076,7 +1077,7 @@ def _marathon_long(out, log, m, det, prop="C02"):
         got_c = list(zip(o["from"].tolist(), o["to"].tolist(), [int(x) for x in o["ifrom"]], [int(x) for x in o["ito"]]))
         got_r = list(zip([int(x) for x in o["ridx"]], o["res"].tolist()))
         log.add("long-c03", det, len(got_c), got_r)
-        out.count("probe:marathon_refinement_of_%s_samples" % ("2e32" if total >= (1 << 32) else "2e31"))
+        out.count("probe:marathon_refinement_of_%s_samples" % ("2e32" if total >= (1 << 32) else "2e31" if total >= (1 << 31) else "2e25_in_one_call"))
         if got_c != want_c or got_r != want_r:
             k_ = next((q for q in range(min(len(got_c), len(want_c))) if got_c[q] != want_c[q]), min(len(got_c), len(want_c)))
             out.violate("T-mid", det + ":long-history",
